@@ -536,7 +536,7 @@ def decimal_lax_coercion_loader(data):
         raise ValueLoadError("Bad string format", data)
     except TypeError:
         raise TypeLoadError(Union[str, Decimal], data)
-    except ValueError as e:
+    except (ValueError, OverflowError) as e:
         raise ValueLoadError(str(e), data)
 
 
